@@ -1,5 +1,5 @@
 """C13 — tokens and syntax tree are lossless over the source text."""
-import os, json, collections
+import os, sys, json, collections
 from vlib import *
 
 MODULES = ["Mimium.Props.C13"]
@@ -92,11 +92,22 @@ def main(ctx, args):
         "HashMap<usize, Vec<usize>> trivia maps compared after sorting by key",
     ]
     known = load_known("C13")
-    if not extract(ctx):
-        ctx.finish()
+    # translator: a source shape it no longer recognises breaks the obligation "model data/discipline = source"; we then
+    # keep going with the last generated tables so that the judge below can still look for a concrete failing input
+    px = run([sys.executable, os.path.join(VERIF, "tools", "extract.py")], cwd=VERIF)
+    extract_broken = None
+    if px.returncode != 0:
+        extract_broken = px.stderr.strip()[-1500:]
+        if not os.path.exists(os.path.join(LEAN, "Mimium", "Gen", "TokenTables.lean")):
+            ctx.violation("translator could not re-extract the token tables and no previous tables exist: " + extract_broken,
+                          {"stage": "extract", "obligation": "tools/extract.py gen_c13", "stderr": extract_broken}, found_input=False)
+            ctx.finish()
     proved = prove(ctx, MODULES)
     if proved and ctx.tier == "thorough":
         proved = leancheck(ctx, MODULES)
+    if extract_broken:
+        proved = False
+        ctx._broken = ["translator obligation (tables / parser-cursor discipline re-extracted from /repo): " + extract_broken]
     if not build_harness(ctx):
         ctx.finish()
     stats = new_stats()
